@@ -19,13 +19,20 @@ CONSTANTS MaxLen,      \* longest request explored
           Workers,     \* set of backend workers
           WithBackend, \* is a proxy backend configured
           FailFast,    \* TRUE: the dependency-check variant (C06)
-          Recheck      \* TRUE: the fail-fast flag is re-checked after the wait group drained
+          Recheck,     \* TRUE: the fail-fast flag is re-checked after the wait group drained
+          QueueCap,    \* capacity of containsQueue (2048 in the code, with 512 workers)
+          SkipWhenFull \* FALSE in the code: a send on a full queue blocks.  TRUE is the tempting
+                       \* "do not stall the request, leave the digest in the missing list" (refuted)
 
-Classes == {"local", "localOtherSize", "backendOnly", "backendOversize", "absent", "empty"}
+\* "...OtherSize": the hash of a blob that is held (locally / by the backend), asked for under another size.
+\* Digests are told apart by position only - as in the code, which works through pointers into the
+\* request slice -, so the same hash may occur in one request under its right and under a wrong size
+\* (in either order) and each occurrence is answered on its own; the harness builds such requests.
+Classes == {"local", "localOtherSize", "backendOnly", "backendOtherSize", "backendOversize", "absent", "empty"}
 
 \* what the property says about a class
-PolicyMissing(c) == IF WithBackend THEN c \in {"localOtherSize", "backendOversize", "absent"}
-                    ELSE c \in {"localOtherSize", "backendOnly", "backendOversize", "absent"}
+PolicyMissing(c) == IF WithBackend THEN c \in {"localOtherSize", "backendOtherSize", "backendOversize", "absent"}
+                    ELSE c \in {"localOtherSize", "backendOnly", "backendOtherSize", "backendOversize", "absent"}
 
 LocalHit(c)   == c \in {"local", "empty"}      \* findMissingLocalCAS clears the slot
 BackendHit(c) == c = "backendOnly"             \* proxy.Contains answers true with the right size
@@ -83,6 +90,10 @@ Enqueue ==
           THEN IF FailFast THEN Finish("errMissing") /\ UNCHANGED <<lo, at, queue, pending>>
                ELSE /\ at' = at + 1 /\ UNCHANGED <<pc, lo, queue, pending, result>>
      ELSE IF cancelled THEN Finish("errMissing") /\ UNCHANGED <<lo, at, queue, pending>>
+     ELSE IF Len(queue) >= QueueCap
+          THEN \* the channel is full: the send blocks until a worker takes something
+               /\ SkipWhenFull /\ ~FailFast
+               /\ at' = at + 1 /\ UNCHANGED <<pc, lo, queue, pending, result>>
      ELSE /\ queue' = Append(queue, at) /\ pending' = pending + 1 /\ at' = at + 1
           /\ UNCHANGED <<pc, lo, result>>
   /\ UNCHANGED <<req, slot, busy, cancelled>>
@@ -131,7 +142,10 @@ InvExact == (pc = "done" /\ ~FailFast) => result = <<"missing", Expected>>
 \* and a missing blob is never masked
 InvFailFast == (pc = "done" /\ FailFast) => (result = "ok") = (Expected = <<>>)
 
-\* the request terminates (no lost wake-up): checked as a liveness property
+\* the hand-off queue never holds more than its capacity
+InvQueueBounded == Len(queue) <= QueueCap
+
+\* the request terminates (no lost wake-up, and a full queue is always drained): checked as a liveness property
 Terminates == <>(pc = "done")
 
 -----------------------------------------------------------------------------
